@@ -28,6 +28,9 @@ pub enum Event {
     Run(u32),
     Noop,
     Em { o: [u32; 3], tag: u32, val: u32 },
+    /// payload-carrying events (exercise the decoders; the app treats them like Noop)
+    Data(Vec<u8>),
+    Text(String),
 }
 
 /// Legacy capability for `VOp` (capability API host).
@@ -122,7 +125,7 @@ impl crux_core::App for VApp {
         let inst = u32::try_from(model.log.len()).unwrap();
         let prog = match &event {
             Event::Run(p) => self.ctx.table.progs.get(*p as usize),
-            Event::Noop => None,
+            Event::Noop | Event::Data(_) | Event::Text(_) => None,
             Event::Em { tag, .. } => self
                 .ctx
                 .table
